@@ -11,7 +11,7 @@ Local Open Scope N_scope.
 Definition facts_ok (F : facts) : Prop :=
   f_cache_checked F = true /\ f_lock_purges_cache F = true /\ f_lock_wipes_wscripts F = true /\
   f_lock_wipes_last F = true /\ f_unlock_skips_keyless F = true /\ f_keyless_not_queued F = true /\
-  f_change_rejects_empty F = true.
+  f_change_rejects_empty F = true /\ f_privkey_checks_first F = true /\ f_unlock_preloads F = true.
 
 (* ------------------------------------------------------------------ equality tests *)
 
@@ -199,61 +199,129 @@ Proof. reflexivity. Qed.
 
 (* ------------------------------------------------------------------ the invariant *)
 
-Definition has_key (accts : list ((N * N) * ainfo)) (k : N * N) : Prop :=
-  exists ai, alookup pair_eqb k accts = Some ai /\ ai_has_enc ai = true.
+Lemma alookup_filter_ne {V} (k k0 : N * N) (l : list ((N * N) * V)) v :
+  alookup pair_eqb k (filter (fun kv => negb (pair_eqb (fst kv) k0)) l) = Some v ->
+  alookup pair_eqb k l = Some v.
+Proof.
+  induction l as [|[k' v'] l IH]; simpl; [discriminate|].
+  destruct (pair_eqb k' k0) eqn:E0; simpl.
+  - intros H. destruct (pair_eqb k k') eqn:E; [|auto].
+    (* k = k' = k0 is impossible: k was found in the filtered list *)
+    apply pair_eqb_eq in E; subst k'. exfalso.
+    clear IH. induction l as [|[k2 v2] l IH2]; simpl in H; [discriminate|].
+    destruct (pair_eqb k2 k0) eqn:E2; simpl in H; [auto|].
+    destruct (pair_eqb k k2) eqn:E3; [|auto].
+    apply pair_eqb_eq in E3; subst k2. congruence.
+  - destruct (pair_eqb k k'); auto.
+Qed.
 
-(* a deriveOnUnlock entry that Unlock can serve: its account is cached and has
-   an encrypted private key *)
-Definition qok (accts : list ((N * N) * ainfo)) (q : qent) : Prop :=
-  exists k, qent_acct q = Some k /\ has_key accts k.
+(* a deriveOnUnlock entry that Unlock can serve: its account exists on disk
+   with an encrypted private key *)
+Definition dqok (d : list ((N * N) * drow)) (q : qent) : Prop :=
+  exists k row, qent_acct q = Some k /\ alookup pair_eqb k d = Some row /\ dr_has_priv row = true.
 
-Definition acc_ext (a a' : list ((N * N) * ainfo)) : Prop :=
+Definition dext (d d' : list ((N * N) * drow)) : Prop :=
+  forall k row, alookup pair_eqb k d = Some row ->
+  exists row', alookup pair_eqb k d' = Some row' /\ dr_has_priv row' = dr_has_priv row.
+
+(* the account cache agrees with the disk about which accounts have a private key *)
+Definition Coh (d : list ((N * N) * drow)) (a : list ((N * N) * ainfo)) : Prop :=
   forall k ai, alookup pair_eqb k a = Some ai ->
-  exists ai', alookup pair_eqb k a' = Some ai' /\ ai_has_enc ai' = ai_has_enc ai.
+  exists row, alookup pair_eqb k d = Some row /\ ai_has_enc ai = dr_has_priv row.
 
-Lemma acc_ext_refl a : acc_ext a a.
-Proof. intros k ai H; exists ai; auto. Qed.
+Lemma dext_refl d : dext d d.
+Proof. intros k row H; exists row; auto. Qed.
 
-Lemma acc_ext_trans a b c : acc_ext a b -> acc_ext b c -> acc_ext a c.
+Lemma dqok_ext d d' q : dext d d' -> dqok d q -> dqok d' q.
 Proof.
-  intros H1 H2 k ai H. destruct (H1 _ _ H) as (ai1 & L1 & E1).
-  destruct (H2 _ _ L1) as (ai2 & L2 & E2). exists ai2; split; [exact L2 | congruence].
+  intros HE (k & row & Hk & HL & HP). destruct (HE _ _ HL) as (row' & HL' & HE').
+  exists k, row'; repeat split; auto. congruence.
 Qed.
 
-Lemma qok_ext a a' q : acc_ext a a' -> qok a q -> qok a' q.
+Lemma Forall_dqok_ext d d' l : dext d d' -> Forall (dqok d) l -> Forall (dqok d') l.
+Proof. intros HE. apply Forall_impl. intros q; apply dqok_ext; exact HE. Qed.
+
+Lemma Coh_dext d d' a : dext d d' -> Coh d a -> Coh d' a.
 Proof.
-  intros HE (k & Hk & ai & HL & HK). destruct (HE _ _ HL) as (ai' & HL' & HE').
-  exists k; split; [exact Hk|]. exists ai'; split; [exact HL' | congruence].
+  intros HE HC k ai H. destruct (HC _ _ H) as (row & HL & HP).
+  destruct (HE _ _ HL) as (row' & HL' & HE'). exists row'; split; [exact HL' | congruence].
 Qed.
 
-Lemma Forall_qok_ext a a' l : acc_ext a a' -> Forall (qok a) l -> Forall (qok a') l.
-Proof. intros HE. apply Forall_impl. intros q; apply qok_ext; exact HE. Qed.
+Lemma dext_app d x : dext d (d ++ x).
+Proof. intros k row H. exists row; split; [apply alookup_app_some; exact H | reflexivity]. Qed.
 
-Lemma acc_ext_app_fresh a k ai :
-  alookup pair_eqb k a = None -> acc_ext a (a ++ [(k, ai)]).
+Lemma dext_upsert d k row row0 :
+  alookup pair_eqb k d = Some row0 -> dr_has_priv row = dr_has_priv row0 ->
+  dext d (aupsert pair_eqb k row d).
 Proof.
-  intros HN k' ai' H. exists ai'; split; [|reflexivity].
-  apply alookup_app_some; exact H.
-Qed.
-
-Lemma acc_ext_upsert a k ai ai0 :
-  alookup pair_eqb k a = Some ai0 -> ai_has_enc ai = ai_has_enc ai0 ->
-  acc_ext a (aupsert pair_eqb k ai a).
-Proof.
-  intros HL HE k' ai' H. destruct (pair_eqb k' k) eqn:E.
-  - apply pair_eqb_eq in E; subst k'. exists ai; split.
+  intros HL HE k' r' H. destruct (pair_eqb k' k) eqn:E.
+  - apply pair_eqb_eq in E; subst k'. exists row; split.
     + apply (alookup_upsert_same pair_eqb pair_eqb_eq).
     + congruence.
-  - exists ai'; split; [|reflexivity].
+  - exists r'; split; [|reflexivity].
     rewrite (alookup_upsert_other pair_eqb pair_eqb_eq); [exact H|].
     intros ->. rewrite pair_eqb_refl in E; discriminate.
 Qed.
 
-Lemma acc_ext_avmap a (f : ainfo -> ainfo) :
-  (forall ai, ai_has_enc (f ai) = ai_has_enc ai) -> acc_ext a (avmap f a).
+Lemma Coh_app_fresh d a k ai row :
+  Coh d a -> alookup pair_eqb k a = None ->
+  alookup pair_eqb k d = Some row -> ai_has_enc ai = dr_has_priv row ->
+  Coh d (a ++ [(k, ai)]).
 Proof.
-  intros Hf k ai H. exists (f ai); split; [|apply Hf].
-  rewrite alookup_avmap, H; reflexivity.
+  intros HC HN HL HE k' ai' H.
+  destruct (alookup pair_eqb k' a) as [ai0|] eqn:E.
+  - rewrite (alookup_app_some pair_eqb _ _ _ _ E) in H. inv H. apply HC; exact E.
+  - rewrite (alookup_app_none pair_eqb _ _ _ E) in H. simpl in H.
+    destruct (pair_eqb k' k) eqn:E2; [|discriminate]. inv H.
+    apply pair_eqb_eq in E2; subst k'. exists row; auto.
+Qed.
+
+Lemma Coh_upsert d a k ai ai0 :
+  Coh d a -> alookup pair_eqb k a = Some ai0 -> ai_has_enc ai = ai_has_enc ai0 ->
+  Coh d (aupsert pair_eqb k ai a).
+Proof.
+  intros HC HL HE k' ai' H. destruct (pair_eqb k' k) eqn:E.
+  - apply pair_eqb_eq in E; subst k'.
+    rewrite (alookup_upsert_same pair_eqb pair_eqb_eq) in H. inv H.
+    destruct (HC _ _ HL) as (row & A & B). exists row; split; [exact A | congruence].
+  - rewrite (alookup_upsert_other pair_eqb pair_eqb_eq) in H; [apply HC; exact H|].
+    intros ->. rewrite pair_eqb_refl in E; discriminate.
+Qed.
+
+Lemma Coh_avmap d a (f : ainfo -> ainfo) :
+  (forall ai, ai_has_enc (f ai) = ai_has_enc ai) -> Coh d a -> Coh d (avmap f a).
+Proof.
+  intros Hf HC k ai H. rewrite alookup_avmap in H.
+  destruct (alookup pair_eqb k a) as [ai0|] eqn:E; [|discriminate]. simpl in H. inv H.
+  destruct (HC _ _ E) as (row & A & B). exists row; split; [exact A | rewrite Hf; exact B].
+Qed.
+
+Lemma Coh_filter d a k0 :
+  Coh d a -> Coh d (filter (fun kv => negb (pair_eqb (fst kv) k0)) a).
+Proof. intros HC k ai H. apply HC. eapply alookup_filter_ne; eauto. Qed.
+
+Lemma alookup_map_unalias sc a ct k l :
+  alookup pair_eqb k (map (unalias sc a ct) l) =
+  option_map (fun ai => snd (unalias sc a ct (k, ai))) (alookup pair_eqb k l).
+Proof.
+  induction l as [|[k' ai'] l IH]; [reflexivity|].
+  change (map (unalias sc a ct) ((k', ai') :: l)) with (unalias sc a ct (k', ai') :: map (unalias sc a ct) l).
+  assert (HK : fst (unalias sc a ct (k', ai')) = k').
+  { unfold unalias. destruct (fst k' =? sc); reflexivity. }
+  destruct (unalias sc a ct (k', ai')) as [k2 ai2] eqn:EU. simpl in HK; subst k2.
+  cbn [alookup]. destruct (pair_eqb k k') eqn:E; [|exact IH].
+  apply pair_eqb_eq in E; subst k'. cbn [option_map]. rewrite EU. reflexivity.
+Qed.
+
+Lemma unalias_has_enc sc a ct kv : ai_has_enc (snd (unalias sc a ct kv)) = ai_has_enc (snd kv).
+Proof. destruct kv as [k ai]. unfold unalias. destruct (fst k =? sc); reflexivity. Qed.
+
+Lemma Coh_unalias d l sc a ct : Coh d l -> Coh d (map (unalias sc a ct) l).
+Proof.
+  intros HC k ai H. rewrite alookup_map_unalias in H.
+  destruct (alookup pair_eqb k l) as [ai0|] eqn:E; [|discriminate]. simpl in H. inv H.
+  destruct (HC _ _ E) as (row & A & B). exists row; split; [exact A|].
+  pose proof (unalias_has_enc sc a ct (k, ai0)) as HU. simpl in HU. simpl. congruence.
 Qed.
 
 Record KInv (d : dkeys) (k : keys) : Prop := {
@@ -270,14 +338,16 @@ Record KInv (d : dkeys) (k : keys) : Prop := {
 
 Definition Inv (s : state) : Prop :=
   KInv (dk (sd s)) (mk (sm s)) /\
-  (watch s = false -> Forall (qok (m_accts (sm s))) (m_queue (sm s))) /\
+  Coh (d_accts (sd s)) (m_accts (sm s)) /\
+  (watch s = false -> Forall (dqok (d_accts (sd s))) (m_queue (sm s))) /\
   (locked s = true -> Wiped (sm s)).
 
 Lemma Inv_init nsc pub priv : priv <> empty_pass -> Inv (init nsc pub priv).
 Proof.
-  intros Hp. unfold Inv, init, watch, locked; simpl. split; [|split].
+  intros Hp. unfold Inv, init, watch, locked; simpl. split; [|split; [|split]].
   - constructor; simpl; auto; try discriminate.
     intros _. exists priv, 1. repeat split; auto. discriminate.
+  - intros k ai H; discriminate.
   - intros _; constructor.
   - intros _. unfold Wiped; simpl. repeat split; constructor.
 Qed.
@@ -297,17 +367,22 @@ Proof.
 Qed.
 
 (* An operation that leaves both key records alone preserves the invariant
-   when it keeps the queue servable and, while locked, the objects clean. *)
+   when it keeps cache and disk coherent, the queue servable and, while
+   locked, the objects clean. *)
 Lemma Inv_objs s s' :
   Inv s -> dk (sd s') = dk (sd s) -> mk (sm s') = mk (sm s) ->
-  (watch s = false -> Forall (qok (m_accts (sm s'))) (m_queue (sm s'))) ->
+  Coh (d_accts (sd s')) (m_accts (sm s')) ->
+  (watch s = false -> Forall (dqok (d_accts (sd s'))) (m_queue (sm s'))) ->
   (locked s = true -> ObjsClean (sm s) -> ObjsClean (sm s')) ->
   Inv s'.
 Proof.
-  intros (HK & HQ & HW) Hd Hm HQ' HW'. unfold Inv, watch, locked in *. rewrite Hd, Hm. split; [exact HK|]. split.
+  intros (HK & HC & HQ & HW) Hd Hm HC' HQ' HW'. unfold Inv, watch, locked in *. rewrite Hd, Hm.
+  split; [exact HK|]. split; [exact HC'|]. split.
   - exact HQ'.
   - intros HL. apply (Wiped_same_keys (sm s)); auto. apply HW'; auto. apply Wiped_objs; auto.
 Qed.
+
+Ltac splits := repeat match goal with |- _ /\ _ => split end.
 
 (* ------------------------------------------------------------------ loadAccountInfo *)
 
@@ -319,42 +394,42 @@ Proof.
   destruct has_enc; simpl; [right; auto | left; reflexivity].
 Qed.
 
+Definition mono (a a' : list ((N * N) * ainfo)) : Prop :=
+  forall k ai, alookup pair_eqb k a = Some ai -> alookup pair_eqb k a' = Some ai.
+
 Lemma load_acct_spec F sc acct s s1 ai :
   load_acct F sc acct s = Some (s1, ai) ->
   sd s1 = sd s /\ next_gen s1 = next_gen s /\ mk (sm s1) = mk (sm s) /\
   m_addrs (sm s1) = m_addrs (sm s) /\ m_cache (sm s1) = m_cache (sm s) /\
   alookup pair_eqb (sc, acct) (m_accts (sm s1)) = Some ai /\
-  acc_ext (m_accts (sm s)) (m_accts (sm s1)) /\
+  mono (m_accts (sm s)) (m_accts (sm s1)) /\
+  (Coh (d_accts (sd s)) (m_accts (sm s)) -> Coh (d_accts (sd s)) (m_accts (sm s1))) /\
   (exists q, m_queue (sm s1) = m_queue (sm s) ++ q /\
-             (f_keyless_not_queued F = true -> Forall (qok (m_accts (sm s1))) q)) /\
+             (f_keyless_not_queued F = true -> Forall (dqok (d_accts (sd s))) q) /\
+             Forall (fun x => qent_acct x = Some (sc, acct)) q) /\
   (locked s = true -> Forall (fun kv => acct_clean (snd kv)) (m_accts (sm s)) ->
-                      Forall (fun kv => acct_clean (snd kv)) (m_accts (sm s1))) /\
-  (ai_priv ai = true -> locked s = false /\ watch s = false \/
-                        alookup pair_eqb (sc, acct) (m_accts (sm s)) = Some ai).
+                      Forall (fun kv => acct_clean (snd kv)) (m_accts (sm s1))).
 Proof.
   unfold load_acct. destruct (alookup pair_eqb (sc, acct) (m_accts (sm s))) as [ai0|] eqn:EL.
-  - intros H; inv H. repeat split; auto.
-    + apply acc_ext_refl.
-    + exists []; rewrite app_nil_r; split; [reflexivity | constructor].
-  - destruct (alookup pair_eqb (sc, acct) (d_accts (sd s))) as [row|]; [|discriminate].
+  - intros H; inv H. splits; auto.
+    + intros k ai' H; exact H.
+    + exists []; rewrite app_nil_r; splits; [reflexivity | intros _; constructor | constructor].
+  - destruct (alookup pair_eqb (sc, acct) (d_accts (sd s))) as [row|] eqn:ED; [|discriminate].
     set (hasp := negb (k_locked (mk (sm s))) && negb (k_watch (mk (sm s))) && negb (dr_watch row)).
     destruct (hasp && negb (dr_has_priv row)) eqn:EH; [discriminate|].
-    intros H; inv H. simpl. repeat split; auto.
+    intros H; inv H. simpl. splits; auto.
     + rewrite (alookup_app_none pair_eqb _ _ _ EL). simpl. rewrite pair_eqb_refl; reflexivity.
-    + apply acc_ext_app_fresh; exact EL.
-    + eexists; split; [reflexivity|]. intros HF.
-      destruct (queue_if_public_cases F (dr_has_priv row) hasp [QLast sc acct false; QLast sc acct true] HF)
-        as [-> | (He & _ & ->)]; [constructor|].
-      assert (HK : has_key (m_accts (sm s) ++ [(sc, acct,
-                     {| ai_has_enc := dr_has_priv row; ai_priv := hasp; ai_last_ext := LOwn hasp; ai_last_int := LOwn hasp |})])
-                           (sc, acct)).
-      { eexists; split; [rewrite (alookup_app_none pair_eqb _ _ _ EL); simpl; rewrite pair_eqb_refl; reflexivity | exact He]. }
-      constructor; [|constructor; [|constructor]]; exists (sc, acct); split; auto.
+    + intros k ai' H. apply alookup_app_some; exact H.
+    + intros HC. eapply Coh_app_fresh; eauto.
+    + eexists; splits; [reflexivity | |].
+      * intros HF.
+        destruct (queue_if_public_cases F (dr_has_priv row) hasp [QLast sc acct false; QLast sc acct true] HF)
+          as [-> | (He & _ & ->)]; [constructor|].
+        constructor; [|constructor; [|constructor]]; exists (sc, acct), row; auto.
+      * unfold queue_if_public. destruct hasp; [constructor|].
+        destruct (f_keyless_not_queued F && negb (dr_has_priv row)); repeat constructor.
     + intros HL HF. apply Forall_app; split; [exact HF|]. constructor; [|constructor].
       unfold locked in HL. subst hasp. rewrite HL. simpl. repeat split.
-    + simpl. intros HP. left. subst hasp. unfold locked, watch.
-      apply andb_true_iff in HP as [HP _]. apply andb_true_iff in HP as [H1 H2].
-      apply negb_true_iff in H1, H2. auto.
 Qed.
 
 (* ------------------------------------------------------------------ loadAndCacheAddress *)
@@ -366,33 +441,40 @@ Proof. unfold addr_clean, aobj_secret_live; simpl. apply andb_false_r. Qed.
 Lemma addr_clean_public k ct : addr_clean (OScript k false ct).
 Proof. reflexivity. Qed.
 
-Ltac splits := repeat match goal with |- _ /\ _ => split end.
+Lemma dqok_of_cached d accts k ai q :
+  Coh d accts -> alookup pair_eqb k accts = Some ai -> ai_has_enc ai = true ->
+  qent_acct q = Some k -> dqok d q.
+Proof.
+  intros HC HL HE HQ. destruct (HC _ _ HL) as (row & A & B).
+  exists k, row; repeat split; auto. congruence.
+Qed.
 
 Lemma load_addr_spec F sc a s s1 o :
   load_addr F sc a s = Some (s1, o) ->
   sd s1 = sd s /\ next_gen s1 = next_gen s /\ mk (sm s1) = mk (sm s) /\
   m_cache (sm s1) = m_cache (sm s) /\
   alookup addr_eqb (sc, a) (m_addrs (sm s1)) = Some o /\
-  acc_ext (m_accts (sm s)) (m_accts (sm s1)) /\
+  (Coh (d_accts (sd s)) (m_accts (sm s)) -> Coh (d_accts (sd s)) (m_accts (sm s1))) /\
   (exists q, m_queue (sm s1) = m_queue (sm s) ++ q /\
-             (f_keyless_not_queued F = true -> Forall (qok (m_accts (sm s1))) q)) /\
+             (f_keyless_not_queued F = true -> Coh (d_accts (sd s)) (m_accts (sm s)) ->
+              Forall (dqok (d_accts (sd s))) q)) /\
   (locked s = true -> ObjsClean (sm s) -> ObjsClean (sm s1)).
 Proof.
   unfold load_addr. destruct (alookup addr_eqb (sc, a) (m_addrs (sm s))) as [o0|] eqn:EL.
   - intros H; inv H. splits; auto.
-    + apply acc_ext_refl.
-    + exists []; rewrite app_nil_r; split; [reflexivity | constructor].
+    exists []; rewrite app_nil_r; split; [reflexivity | intros; constructor].
   - destruct (alookup addr_eqb (sc, a) (d_addrs (sd s))) as [[|hp|k sec]|]; [| | |discriminate].
     + destruct a as [acct br idx| |]; try discriminate.
       destruct (load_acct F sc acct s) as [[s0 ai]|] eqn:ELA; [|discriminate].
-      destruct (load_acct_spec _ _ _ _ _ _ ELA) as (Hd & Hg & Hk & Ha & Hc & Hl & He & (q0 & Hq0 & Hq0ok) & Hcl & _).
+      destruct (load_acct_spec _ _ _ _ _ _ ELA) as (Hd & Hg & Hk & Ha & Hc & Hl & Hm & HCo & (q0 & Hq0 & Hq0ok & _) & Hcl).
       intros H; inv H. simpl. splits; auto.
       * rewrite Ha. rewrite (alookup_app_none addr_eqb _ _ _ EL). simpl. rewrite addr_eqb_refl; reflexivity.
-      * eexists; split; [rewrite Hq0, <- app_assoc; reflexivity|]. intros HF.
+      * eexists; split; [rewrite Hq0, <- app_assoc; reflexivity|]. intros HF HC.
         apply Forall_app; split; [apply Hq0ok; exact HF|].
         match goal with |- Forall _ (queue_if_public F ?e ?p ?q) =>
           destruct (queue_if_public_cases F e p q HF) as [-> | (He' & _ & ->)] end; [constructor|].
-        constructor; [|constructor]. exists (sc, acct); split; [reflexivity|]. exists ai; auto.
+        constructor; [|constructor].
+        apply (dqok_of_cached _ (m_accts (sm s0)) (sc, acct) ai); auto.
       * intros HL (HA & HB & HC). repeat split.
         -- apply Hcl; assumption.
         -- rewrite Ha. apply Forall_app; split; [exact HB|]. constructor; [|constructor]. simpl.
@@ -400,25 +482,15 @@ Proof.
         -- simpl. rewrite Hc; exact HC.
     + intros H; inv H. simpl. splits; auto.
       * rewrite (alookup_app_none addr_eqb _ _ _ EL). simpl. rewrite addr_eqb_refl; reflexivity.
-      * apply acc_ext_refl.
-      * exists []; rewrite app_nil_r; split; [reflexivity | constructor].
+      * exists []; rewrite app_nil_r; split; [reflexivity | intros; constructor].
       * intros _ (HA & HB & HC). repeat split; auto. apply Forall_app; split; [exact HB|].
         constructor; [apply addr_clean_key_dead | constructor].
     + intros H; inv H. simpl. splits; auto.
       * rewrite (alookup_app_none addr_eqb _ _ _ EL). simpl. rewrite addr_eqb_refl; reflexivity.
-      * apply acc_ext_refl.
-      * exists []; rewrite app_nil_r; split; [reflexivity | constructor].
+      * exists []; rewrite app_nil_r; split; [reflexivity | intros; constructor].
       * intros _ (HA & HB & HC). repeat split; auto. apply Forall_app; split; [exact HB|].
         constructor; [apply addr_clean_script_dead | constructor].
 Qed.
-
-Lemma set_addr_fields s sc a o :
-  sd (set_addr s sc a o) = sd s /\ mk (sm (set_addr s sc a o)) = mk (sm s) /\
-  m_accts (sm (set_addr s sc a o)) = m_accts (sm s) /\
-  m_queue (sm (set_addr s sc a o)) = m_queue (sm s) /\
-  m_cache (sm (set_addr s sc a o)) = m_cache (sm s) /\
-  m_addrs (sm (set_addr s sc a o)) = aupsert addr_eqb (sc, a) o (m_addrs (sm s)).
-Proof. repeat split. Qed.
 
 Lemma ObjsClean_set_addr s sc a o :
   ObjsClean (sm s) -> addr_clean o -> ObjsClean (sm (set_addr s sc a o)).
@@ -429,24 +501,30 @@ Qed.
 
 (* ------------------------------------------------------------------ preservation: object-level operations *)
 
+Lemma Inv_parts s : Inv s ->
+  Coh (d_accts (sd s)) (m_accts (sm s)) /\ (watch s = false -> Forall (dqok (d_accts (sd s))) (m_queue (sm s))).
+Proof. intros (_ & HC & HQ & _); auto. Qed.
+
+(* same disk accounts, queue extended *)
 Lemma Inv_ext s s1 :
-  Inv s -> dk (sd s1) = dk (sd s) -> mk (sm s1) = mk (sm s) ->
-  acc_ext (m_accts (sm s)) (m_accts (sm s1)) ->
-  (exists q, m_queue (sm s1) = m_queue (sm s) ++ q /\ (watch s = false -> Forall (qok (m_accts (sm s1))) q)) ->
+  Inv s -> dk (sd s1) = dk (sd s) -> d_accts (sd s1) = d_accts (sd s) -> mk (sm s1) = mk (sm s) ->
+  Coh (d_accts (sd s)) (m_accts (sm s1)) ->
+  (exists q, m_queue (sm s1) = m_queue (sm s) ++ q /\ (watch s = false -> Forall (dqok (d_accts (sd s))) q)) ->
   (locked s = true -> ObjsClean (sm s) -> ObjsClean (sm s1)) ->
   Inv s1.
 Proof.
-  intros HI Hd Hm He (q & Hq & Hqok) Hc. apply (Inv_objs s); auto.
-  intros HW. rewrite Hq. apply Forall_app; split; [|auto].
-  apply (Forall_qok_ext (m_accts (sm s))); [exact He|]. destruct HI as (_ & HQ & _); auto.
+  intros HI Hd Hda Hm HC (q & Hq & Hqok) Hc. apply (Inv_objs s); auto.
+  - rewrite Hda; exact HC.
+  - intros HW. rewrite Hq, Hda. apply Forall_app; split; [|auto].
+    destruct (Inv_parts _ HI) as [_ HQ]; auto.
 Qed.
 
 Lemma Inv_load_acct F sc acct s s1 ai :
   f_keyless_not_queued F = true -> Inv s -> load_acct F sc acct s = Some (s1, ai) -> Inv s1.
 Proof.
-  intros HF HI HL. destruct (load_acct_spec _ _ _ _ _ _ HL) as (Hd & _ & Hk & Ha & Hc & _ & He & (q & Hq & Hqok) & Hcl & _).
-  apply (Inv_ext s); auto.
-  - rewrite Hd; reflexivity.
+  intros HF HI HL. destruct (load_acct_spec _ _ _ _ _ _ HL) as (Hd & _ & Hk & Ha & Hc & _ & _ & HCo & (q & Hq & Hqok & _) & Hcl).
+  destruct (Inv_parts _ HI) as [HC _].
+  apply (Inv_ext s); auto; try (rewrite Hd; reflexivity).
   - exists q; auto.
   - intros HL' (A & B & C). repeat split; [apply Hcl; auto | rewrite Ha; exact B | rewrite Hc; exact C].
 Qed.
@@ -454,24 +532,26 @@ Qed.
 Lemma Inv_load_addr F sc a s s1 o :
   f_keyless_not_queued F = true -> Inv s -> load_addr F sc a s = Some (s1, o) -> Inv s1.
 Proof.
-  intros HF HI HL. destruct (load_addr_spec _ _ _ _ _ _ HL) as (Hd & _ & Hk & Hc & _ & He & (q & Hq & Hqok) & Hcl).
-  apply (Inv_ext s); auto.
-  - rewrite Hd; reflexivity.
-  - exists q; auto.
+  intros HF HI HL. destruct (load_addr_spec _ _ _ _ _ _ HL) as (Hd & _ & Hk & Hc & _ & HCo & (q & Hq & Hqok) & Hcl).
+  destruct (Inv_parts _ HI) as [HC _].
+  apply (Inv_ext s); auto; try (rewrite Hd; reflexivity).
+  exists q; auto.
 Qed.
 
-Lemma Inv_same_mem s s' : Inv s -> dk (sd s') = dk (sd s) -> sm s' = sm s -> Inv s'.
+Lemma Inv_same_mem s s' :
+  Inv s -> dk (sd s') = dk (sd s) -> dext (d_accts (sd s)) (d_accts (sd s')) -> sm s' = sm s -> Inv s'.
 Proof.
-  intros HI Hd Hm. apply (Inv_objs s); auto; rewrite Hm; auto.
-  destruct HI as (_ & HQ & _); exact HQ.
+  intros HI Hd He Hm. destruct (Inv_parts _ HI) as [HC HQ].
+  apply (Inv_objs s); auto; rewrite Hm; auto.
+  - eapply Coh_dext; eauto.
+  - intros HW. eapply Forall_dqok_ext; eauto.
 Qed.
 
 Lemma Inv_set_addr s sc a o :
   Inv s -> (locked s = true -> addr_clean o) -> Inv (set_addr s sc a o).
 Proof.
-  intros HI Ho. apply (Inv_objs s); auto.
-  - destruct HI as (_ & HQ & _); exact HQ.
-  - intros HL HC. apply ObjsClean_set_addr; auto.
+  intros HI Ho. destruct (Inv_parts _ HI) as [HC HQ]. apply (Inv_objs s); auto.
+  intros HL HCl. apply ObjsClean_set_addr; auto.
 Qed.
 
 Lemma locked_of_mk s s' : mk (sm s') = mk (sm s) -> locked s' = locked s /\ watch s' = watch s.
@@ -484,16 +564,19 @@ Proof.
   eapply Inv_load_acct; eauto.
 Qed.
 
+Lemma Inv_add_account sc row s : Inv s -> Inv (add_account sc row s).
+Proof.
+  intros HI. apply (Inv_same_mem s); auto. simpl. apply dext_app.
+Qed.
+
 Lemma Inv_new_account sc s s' r : Inv s -> do_new_account sc s = (s', r) -> Inv s'.
 Proof.
   intros HI. unfold do_new_account. destruct (watch s); [intros H; inv H; auto|].
-  destruct (locked s); intros H; inv H; auto.
+  destruct (locked s); intros H; inv H; auto. apply Inv_add_account; auto.
 Qed.
 
 Lemma Inv_new_watch_account sc s s' r : Inv s -> do_new_watch_account sc s = (s', r) -> Inv s'.
-Proof.
-  intros HI H; inv H. apply (Inv_same_mem s); auto.
-Qed.
+Proof. intros HI H; inv H. apply Inv_add_account; auto. Qed.
 
 Lemma Inv_crypt kt s s' r : Inv s -> do_crypt kt s = (s', r) -> Inv s'.
 Proof.
@@ -506,7 +589,7 @@ Proof.
   destruct (locked s && negb (watch s)) eqn:E1; [intros H; inv H; auto|].
   destruct (addr_known sc (KImp n) s); intros H; inv H; auto.
   apply Inv_set_addr.
-  - apply (Inv_same_mem s); auto.
+  - apply (Inv_same_mem s); auto. apply dext_refl.
   - unfold locked; simpl. intros HL. fold (locked s) in HL. rewrite HL in E1. simpl in E1.
     apply negb_false_iff in E1. rewrite E1. simpl. apply addr_clean_key_dead.
 Qed.
@@ -519,7 +602,7 @@ Proof.
   destruct (sec && watch s) eqn:E2; [intros H; inv H; auto|].
   destruct (addr_known sc (KScr n) s); intros H; inv H; auto.
   apply Inv_set_addr.
-  - apply (Inv_same_mem s); auto.
+  - apply (Inv_same_mem s); auto. apply dext_refl.
   - unfold locked; simpl. intros HL. fold (locked s) in HL. rewrite HL, andb_true_r in E1. rewrite E1.
     apply addr_clean_public.
 Qed.
@@ -531,16 +614,23 @@ Proof.
   eapply Inv_load_addr; eauto.
 Qed.
 
-Lemma Inv_priv_key F sc a s s' r :
-  f_keyless_not_queued F = true -> Inv s -> do_priv_key F sc a s = (s', r) -> Inv s'.
+Lemma key_access_ok_unlocked F k enc ct :
+  f_privkey_checks_first F = true -> key_access F k enc ct = ROk -> k_locked k = false /\ k_watch k = false.
 Proof.
-  intros HF HI. unfold do_priv_key. destruct (load_addr F sc a s) as [[s1 o]|] eqn:E; [|intros H; inv H; auto].
+  intros HF. unfold key_access. rewrite HF.
+  destruct (k_watch k); [discriminate|]. destruct (k_locked k); [discriminate|]. auto.
+Qed.
+
+Lemma Inv_priv_key F sc a s s' r :
+  f_keyless_not_queued F = true -> f_privkey_checks_first F = true ->
+  Inv s -> do_priv_key F sc a s = (s', r) -> Inv s'.
+Proof.
+  intros HF HF8 HI. unfold do_priv_key. destruct (load_addr F sc a s) as [[s1 o]|] eqn:E; [|intros H; inv H; auto].
   assert (HI1 : Inv s1) by (eapply Inv_load_addr; eauto).
   destruct o as [imp enc ct | k sec ct]; [|intros H; inv H; auto].
-  destruct (watch s1); [intros H; inv H; auto|].
-  destruct (locked s1) eqn:EL; [intros H; inv H; auto|].
-  destruct (negb enc); intros H; inv H; auto.
-  apply Inv_set_addr; auto. intros HL; congruence.
+  destruct (key_access F (mk (sm s1)) enc ct) eqn:EK; intros H; inv H; auto.
+  apply Inv_set_addr; auto. intros HL.
+  destruct (key_access_ok_unlocked _ _ _ _ HF8 EK) as [A _]. unfold locked in HL. congruence.
 Qed.
 
 Lemma Inv_script F sc a s s' r :
@@ -549,11 +639,26 @@ Proof.
   intros HF HI. unfold do_script. destruct (load_addr F sc a s) as [[s1 o]|] eqn:E; [|intros H; inv H; auto].
   assert (HI1 : Inv s1) by (eapply Inv_load_addr; eauto).
   destruct o as [imp enc ct | k sec ct]; [intros H; inv H; auto|].
-  set (gate := match k with KP2SH => true | _ => sec end).
-  destruct (gate && watch s1); [intros H; inv H; auto|].
-  destruct (gate && locked s1) eqn:EG; intros H; inv H; auto.
-  apply Inv_set_addr; auto. intros HL. rewrite HL, andb_true_r in EG.
-  subst gate. destruct k; try discriminate; subst sec; apply addr_clean_public.
+  destruct (script_access (mk (sm s1)) k sec) eqn:EK; intros H; inv H; auto.
+  apply Inv_set_addr; auto. intros HL. unfold script_access in EK. unfold locked in HL. rewrite HL in EK.
+  rewrite !andb_true_r in EK.
+  destruct (match k with KP2SH => true | _ => sec end) eqn:EG; simpl in EK.
+  - destruct (k_watch (mk (sm s1))); discriminate.
+  - destruct k; try discriminate; subst sec; apply addr_clean_public.
+Qed.
+
+Lemma Inv_queue_detached F s1 sc acct ai private n :
+  f_keyless_not_queued F = true -> Inv s1 ->
+  alookup pair_eqb (sc, acct) (m_accts (sm s1)) = Some ai ->
+  Inv (with_mem s1 (mem_queue (sm s1)
+         (m_queue (sm s1) ++ queue_if_public F (ai_has_enc ai) private (repeat (QDetached sc acct) n)))).
+Proof.
+  intros HF HI1 Hl. destruct (Inv_parts _ HI1) as [HC _].
+  apply (Inv_ext s1); auto.
+  eexists; split; [reflexivity|]. intros _.
+  destruct (queue_if_public_cases F (ai_has_enc ai) private (repeat (QDetached sc acct) n) HF) as [-> | (He & _ & ->)]; [constructor|].
+  apply Forall_forall. intros q Hq. apply repeat_spec in Hq; subst q.
+  apply (dqok_of_cached _ (m_accts (sm s1)) (sc, acct) ai); auto.
 Qed.
 
 Lemma Inv_derive F sc acct br idx s s' r :
@@ -562,18 +667,20 @@ Proof.
   intros HF HI. unfold do_derive. destruct (load_acct F sc acct s) as [[s1 ai]|] eqn:E; [|intros H; inv H; auto].
   assert (HI1 : Inv s1) by (eapply Inv_load_acct; eauto).
   destruct (load_acct_spec _ _ _ _ _ _ E) as (_ & _ & _ & _ & _ & Hl & _).
-  set (private := negb (k_locked (mk (sm s1))) && negb (k_watch (mk (sm s1))) && ai_priv ai).
-  set (q := queue_if_public F (ai_has_enc ai) private [QDetached sc acct]).
-  set (s2 := with_mem s1 (mem_queue (sm s1) (m_queue (sm s1) ++ q))).
-  assert (HI2 : Inv s2).
-  { apply (Inv_ext s1); auto.
-    - apply acc_ext_refl.
-    - exists q; split; [reflexivity|]. intros _. subst q.
-      destruct (queue_if_public_cases F (ai_has_enc ai) private [QDetached sc acct] HF) as [-> | (He & _ & ->)]; [constructor|].
-      constructor; [|constructor]. exists (sc, acct); split; [reflexivity|]. exists ai; auto. }
-  destruct (k_watch (mk (sm s1))); [intros H; inv H; auto|].
-  destruct (k_locked (mk (sm s1))); [intros H; inv H; auto|].
-  destruct (negb private); intros H; inv H; auto.
+  intros H; inv H.
+  exact (Inv_queue_detached F s1 sc acct ai _ 1 HF HI1 Hl).
+Qed.
+
+Lemma Inv_foreach F sc acct s s' r :
+  f_keyless_not_queued F = true -> Inv s -> do_foreach F sc acct s = (s', r) -> Inv s'.
+Proof.
+  intros HF HI. unfold do_foreach.
+  destruct (filter (is_chain_row sc acct) (d_addrs (sd s))) as [|x rows]; [intros H; inv H; auto|].
+  destruct (load_acct F sc acct s) as [[s1 ai]|] eqn:E; [|intros H; inv H; auto].
+  assert (HI1 : Inv s1) by (eapply Inv_load_acct; eauto).
+  destruct (load_acct_spec _ _ _ _ _ _ E) as (_ & _ & _ & _ & _ & Hl & _).
+  intros H; inv H.
+  exact (Inv_queue_detached F s1 sc acct ai _ (length (x :: rows)) HF HI1 Hl).
 Qed.
 
 Lemma Inv_derive_cache F sc acct br idx s s' r :
@@ -585,9 +692,9 @@ Proof.
   destruct (existsb _ _); [intros H; inv H; auto|].
   destruct (alookup pair_eqb (sc, acct) (m_accts (sm s))) as [ai|]; [|intros H; inv H; auto].
   simpl. destruct (ai_priv ai); intros H; inv H; auto.
+  destruct (Inv_parts _ HI) as [HC HQ].
   apply (Inv_objs s); auto.
-  - destruct HI as (_ & HQ & _); exact HQ.
-  - unfold locked. rewrite EL. discriminate.
+  unfold locked. rewrite EL. discriminate.
 Qed.
 
 Lemma acct_clean_set_last internal a ai : acct_clean ai -> acct_clean (set_last internal (LAlias a) ai).
@@ -602,33 +709,95 @@ Proof.
   destruct (load_acct F sc acct s) as [[s1 ai]|] eqn:E; [|intros H; inv H; auto].
   assert (HI1 : Inv s1) by (eapply Inv_load_acct; eauto).
   destruct (load_acct_spec _ _ _ _ _ _ E) as (_ & _ & _ & _ & _ & Hl & _).
-  destruct (alookup pair_eqb (sc, acct) (d_accts (sd s1))) as [row|]; [|intros H; inv H; auto].
+  destruct (alookup pair_eqb (sc, acct) (d_accts (sd s1))) as [row|] eqn:ER; [|intros H; inv H; auto].
   set (k := mk (sm s1)).
   set (wo := k_watch k || negb (ai_has_enc ai)).
   set (private := negb (k_locked k) && negb wo).
   destruct (private && negb (ai_priv ai)); [intros H; inv H; auto|].
   set (a := KChain acct (if internal then 1 else 0) (if internal then dr_next_int row else dr_next_ext row)).
   intros H; inv H.
-  apply (Inv_ext s1); auto.
-  - simpl. apply (acc_ext_upsert _ _ _ ai); [exact Hl | destruct internal; reflexivity].
-  - simpl. eexists; split; [reflexivity|]. intros HW.
-    assert (HK : ai_has_enc ai = true ->
-                 has_key (aupsert pair_eqb (sc, acct) (set_last internal (LAlias a) ai) (m_accts (sm s1))) (sc, acct)).
-    { intros He. eexists; split; [apply (alookup_upsert_same pair_eqb pair_eqb_eq)|].
-      destruct internal; exact He. }
+  destruct (Inv_parts _ HI1) as [HC HQ].
+  assert (HDE : dext (d_accts (sd s1)) (aupsert pair_eqb (sc, acct) (bump_row internal row) (d_accts (sd s1)))).
+  { apply (dext_upsert _ _ _ row); [exact ER | destruct internal; reflexivity]. }
+  assert (HK : ai_has_enc ai = true -> dqok (aupsert pair_eqb (sc, acct) (bump_row internal row) (d_accts (sd s1))) (QDetached sc acct)).
+  { intros He. apply (dqok_ext (d_accts (sd s1))); [exact HDE|].
+    apply (dqok_of_cached _ (m_accts (sm s1)) (sc, acct) ai); auto. }
+  apply (Inv_objs s1); auto; simpl.
+  - apply (Coh_dext (d_accts (sd s1))); [exact HDE|].
+    apply (Coh_upsert _ _ _ _ ai); [exact HC | exact Hl | destruct internal; reflexivity].
+  - intros HW. apply Forall_app; split; [eapply Forall_dqok_ext; eauto|].
     apply Forall_app; split.
     + match goal with |- Forall _ (queue_if_public F ?e ?p ?q) =>
         destruct (queue_if_public_cases F e p q HF) as [-> | (He' & _ & ->)] end; [constructor|].
-      constructor; [|constructor]. exists (sc, acct); split; [reflexivity | auto].
+      constructor; [|constructor]. auto.
     + fold k. destruct (k_locked k && negb wo) eqn:EQ; [|constructor].
-      constructor; [|constructor]. exists (sc, acct); split; [reflexivity|]. apply HK.
-      apply andb_true_iff in EQ as [_ EQ]. apply negb_true_iff in EQ. subst wo.
-      apply orb_false_iff in EQ as [_ EQ]. apply negb_false_iff in EQ; exact EQ.
-  - intros HL (HA & HB & HC). repeat split; simpl; auto.
+      constructor; [|constructor].
+      assert (He : ai_has_enc ai = true).
+      { apply andb_true_iff in EQ as [_ EQ]. apply negb_true_iff in EQ. subst wo.
+        apply orb_false_iff in EQ as [_ EQ]. apply negb_false_iff in EQ; exact EQ. }
+      destruct (HK He) as (k0 & row0 & A & B & C). exists k0, row0; auto.
+  - intros HL (HA & HB & HC'). repeat split; simpl; auto.
     + apply (Forall_snd_upsert pair_eqb acct_clean); [exact HA|].
       apply acct_clean_set_last. exact (Forall_snd_lookup pair_eqb pair_eqb_eq acct_clean _ _ _ HA Hl).
     + apply (Forall_snd_upsert addr_eqb addr_clean); [exact HB|].
       subst private. fold k. unfold locked in HL. fold k in HL. rewrite HL. simpl. apply addr_clean_key_dead.
+Qed.
+
+(* --- MarkUsed, InvalidateAccountCache --- *)
+
+Lemma qent_acct_requeue accts sc a q : qent_acct (requeue accts sc a q) = qent_acct q.
+Proof.
+  destruct q as [sc' a'| |]; simpl; auto.
+  destruct ((sc' =? sc) && akey_eqb a' a) eqn:E; [|reflexivity].
+  apply andb_true_iff in E as [E1 E2]. apply N.eqb_eq in E1. apply akey_eqb_eq in E2. subst sc' a'.
+  destruct a as [acct br idx| |]; [|reflexivity|reflexivity].
+  destruct (alookup pair_eqb (sc, acct) accts) as [ai|]; [|reflexivity].
+  destruct ((br =? 0) && is_alias (KChain acct br idx) (ai_last_ext ai)); [reflexivity|].
+  destruct ((br =? 1) && is_alias (KChain acct br idx) (ai_last_int ai)); reflexivity.
+Qed.
+
+Lemma qent_acct_orphan sc acct q : qent_acct (orphan sc acct q) = qent_acct q.
+Proof.
+  destruct q as [| sc' acct' i |]; simpl; auto.
+  destruct ((sc' =? sc) && (acct' =? acct)) eqn:E; [|reflexivity].
+  apply andb_true_iff in E as [E1 E2]. apply N.eqb_eq in E1, E2. subst. reflexivity.
+Qed.
+
+Lemma Forall_dqok_map d (f : qent -> qent) l :
+  (forall q, qent_acct (f q) = qent_acct q) -> Forall (dqok d) l -> Forall (dqok d) (map f l).
+Proof.
+  intros Hf HF. apply Forall_map. eapply Forall_impl; [|exact HF].
+  intros q (k & row & A & B & C). exists k, row; repeat split; auto. rewrite Hf; exact A.
+Qed.
+
+Lemma unalias_ref_clean a r : own_live r = false -> own_live (unalias_ref a false r) = false.
+Proof. destruct r as [ct|b]; simpl; auto. destruct (akey_eqb b a); reflexivity. Qed.
+
+Lemma Inv_mark_used sc a s s' r : Inv s -> do_mark_used sc a s = (s', r) -> Inv s'.
+Proof.
+  intros HI. unfold do_mark_used.
+  destruct (alookup addr_eqb (sc, a) (m_addrs (sm s))) as [o|] eqn:EL; intros H; inv H; auto.
+  destruct (Inv_parts _ HI) as [HC HQ].
+  apply (Inv_objs s); auto; simpl.
+  - apply Coh_unalias; exact HC.
+  - intros HW. apply Forall_dqok_map; [apply qent_acct_requeue | auto].
+  - intros HL (HA & HB & HC'). repeat split; simpl; auto.
+    + assert (Hct : match o with OKey _ _ ct => ct | OScript _ _ _ => false end = false).
+      { pose proof (Forall_snd_lookup addr_eqb addr_eqb_eq addr_clean _ _ _ HB EL) as Ho.
+        destruct o as [imp enc ct|]; [exact Ho | reflexivity]. }
+      rewrite Hct. apply Forall_map. eapply Forall_impl; [|exact HA].
+      intros [k ai] (P1 & P2 & P3). unfold unalias. destruct (fst k =? sc); simpl; [|repeat split; auto].
+      repeat split; simpl; auto using unalias_ref_clean.
+    + apply Forall_filter; exact HB.
+Qed.
+
+Lemma Inv_invalidate sc acct s s' r : Inv s -> do_invalidate sc acct s = (s', r) -> Inv s'.
+Proof.
+  intros HI H; inv H. destruct (Inv_parts _ HI) as [HC HQ].
+  apply (Inv_objs s); auto; simpl.
+  - apply Coh_filter; exact HC.
+  - intros HW. apply Forall_dqok_map; [apply qent_acct_orphan | auto].
+  - intros HL (HA & HB & HC'). repeat split; simpl; auto. apply Forall_filter; exact HA.
 Qed.
 
 (* ------------------------------------------------------------------ preservation: lock / unlock / passphrases *)
@@ -644,12 +813,12 @@ Lemma Inv_locked_mem F s salt :
   f_lock_purges_cache F = true -> f_lock_wipes_wscripts F = true -> f_lock_wipes_last F = true ->
   Inv s -> Inv (with_mem s (locked_mem F (sm s) salt)).
 Proof.
-  intros H2 H3 H4 (HK & HQ & HW). unfold Inv, watch, locked, locked_mem. simpl. split; [|split].
+  intros H2 H3 H4 (HK & HC & HQ & HW). unfold Inv, watch, locked, locked_mem. simpl. split; [|split; [|split]].
   - destruct HK as [K1 K2 K3 K4]. constructor; simpl; auto.
     intros HWt. destruct (K4 HWt) as (pw & g & A & B & C & D & E & G & I & _).
     exists pw, g. repeat split; auto. discriminate.
-  - intros HWt. apply (Forall_qok_ext (m_accts (sm s))); [|auto].
-    apply acc_ext_avmap. reflexivity.
+  - apply Coh_avmap; [reflexivity | exact HC].
+  - exact HQ.
   - intros _. apply (Wiped_lock_mem F (mem_keys (sm s) (with_salt (mk (sm s)) salt))); assumption.
 Qed.
 
@@ -667,39 +836,106 @@ Proof.
   intros H. unfold salt_after. destruct (p =? empty_pass) eqn:E; [apply N.eqb_eq in E; contradiction | reflexivity].
 Qed.
 
+(* --- the preload of Unlock --- *)
+
+Lemma preload_spec F qs : forall s s0,
+  f_keyless_not_queued F = true -> Inv s -> preload F qs s = Some s0 ->
+  Inv s0 /\ sd s0 = sd s /\ next_gen s0 = next_gen s /\ mk (sm s0) = mk (sm s) /\
+  mono (m_accts (sm s)) (m_accts (sm s0)) /\
+  (exists q, m_queue (sm s0) = m_queue (sm s) ++ q /\
+     Forall (fun x => exists k ai, qent_acct x = Some k /\ alookup pair_eqb k (m_accts (sm s0)) = Some ai) q) /\
+  Forall (fun x => forall k, qent_acct x = Some k -> exists ai, alookup pair_eqb k (m_accts (sm s0)) = Some ai) qs.
+Proof.
+  induction qs as [|q qs IH]; intros s s0 HF HI H; simpl in H.
+  - inv H. splits; auto. { intros k ai H; exact H. }
+    exists []; rewrite app_nil_r; split; [reflexivity | constructor].
+  - destruct (qent_acct q) as [[sc acct]|] eqn:EQ.
+    + destruct (load_acct F sc acct s) as [[s1 ai]|] eqn:EL; [|discriminate].
+      pose proof (Inv_load_acct _ _ _ _ _ _ HF HI EL) as HI1.
+      destruct (load_acct_spec _ _ _ _ _ _ EL) as (Hd & Hg & Hk & _ & _ & Hl & Hm & _ & (q1 & Hq1 & _ & Hq1a) & _).
+      destruct (IH s1 s0 HF HI1 H) as (HI0 & Hd0 & Hg0 & Hk0 & Hm0 & (q2 & Hq2 & Hq2c) & Hall).
+      splits; auto; try congruence.
+      * intros k ai' Hx. apply Hm0. apply Hm. exact Hx.
+      * exists (q1 ++ q2). split; [rewrite Hq2, Hq1, app_assoc; reflexivity|].
+        apply Forall_app; split; [|exact Hq2c].
+        eapply Forall_impl; [|exact Hq1a]. intros x Hx. exists (sc, acct), ai. split; [exact Hx|].
+        apply Hm0; exact Hl.
+      * constructor; [|exact Hall]. intros k Hk'. rewrite EQ in Hk'. inv Hk'. exists ai. apply Hm0; exact Hl.
+    + destruct (IH s s0 HF HI H) as (HI0 & Hd0 & Hg0 & Hk0 & Hm0 & Hq & Hall).
+      splits; auto. constructor; [|exact Hall]. intros k Hk'. congruence.
+Qed.
+
+Lemma preload_succeeds F qs : forall s,
+  locked s = true -> Forall (dqok (d_accts (sd s))) qs -> exists s0, preload F qs s = Some s0.
+Proof.
+  induction qs as [|q qs IH]; intros s HL HQ; simpl; [eexists; reflexivity|].
+  inv HQ. destruct H1 as (k & row & Hk & Hrow & Hp). rewrite Hk. destruct k as [sc acct].
+  assert (HLA : exists s1 ai, load_acct F sc acct s = Some (s1, ai)).
+  { unfold load_acct. destruct (alookup pair_eqb (sc, acct) (m_accts (sm s))); [eauto|].
+    rewrite Hrow. unfold locked in HL. rewrite HL. simpl. eauto. }
+  destruct HLA as (s1 & ai & EL). rewrite EL.
+  destruct (load_acct_spec _ _ _ _ _ _ EL) as (Hd & _ & Hk1 & _).
+  apply IH.
+  - unfold locked. rewrite Hk1. exact HL.
+  - rewrite Hd. exact H2.
+Qed.
+
+Lemma Coh_apply_qent d m q : Coh d (m_accts m) -> Coh d (m_accts (apply_qent m q)).
+Proof.
+  intros HC. destruct q as [sc a|sc acct internal|sc acct]; simpl; auto.
+  - destruct (alookup addr_eqb (sc, a) (m_addrs m)) as [[imp enc ct|]|]; simpl; auto.
+  - destruct (alookup pair_eqb (sc, acct) (m_accts m)) as [ai|] eqn:E; simpl; auto.
+    apply (Coh_upsert _ _ _ _ ai); auto. destruct internal; reflexivity.
+Qed.
+
+Lemma Coh_fold_apply d qs : forall m, Coh d (m_accts m) -> Coh d (m_accts (fold_left apply_qent qs m)).
+Proof.
+  induction qs as [|q qs IH]; intros m HC; simpl; [exact HC|].
+  apply IH. apply Coh_apply_qent; exact HC.
+Qed.
+
 Lemma Inv_unlock F p s s' r :
   facts_ok F -> Inv s -> do_unlock F p s = (s', r) -> Inv s'.
 Proof.
-  intros (_ & H2 & H3 & H4 & _) HI. unfold do_unlock.
+  intros (_ & H2 & H3 & H4 & _ & F6 & _) HI. unfold do_unlock.
   destruct (k_watch (mk (sm s))) eqn:EW; [intros H; inv H; auto|].
-  destruct HI as (HK & HQ & HWp). destruct HK as [K1 K2 K3 K4].
+  pose proof HI as (HK & HC & HQ & HWp). destruct HK as [K1 K2 K3 K4].
   destruct (K4 EW) as (pw & g & A & B & C & D & E & G & I & J).
-  assert (HI : Inv s) by (split; [constructor; auto | split; auto]).
   destruct (k_locked (mk (sm s))) eqn:EL; simpl.
   - (* locked: slow path *)
     rewrite A. destruct (pw =? p) eqn:EP; simpl.
     2:{ intros H; inv H. rewrite lock_mem_as_locked_mem. apply Inv_locked_mem; auto. }
     rewrite C. rewrite N.eqb_refl. simpl.
+    destruct (if f_unlock_preloads F then preload F (m_queue (sm s)) s else Some s) as [s0|] eqn:EPre.
+    2:{ intros H; inv H. rewrite lock_mem_as_locked_mem. apply Inv_locked_mem; auto. }
+    assert (HS0 : Inv s0 /\ sd s0 = sd s /\ mk (sm s0) = mk (sm s)).
+    { destruct (f_unlock_preloads F).
+      - destruct (preload_spec _ _ _ _ F6 HI EPre) as (X & Y & _ & Z & _). auto.
+      - inv EPre. auto. }
+    destruct HS0 as (HI0 & Hd0 & Hk0).
     destruct (negb (f_unlock_skips_keyless F) && existsb _ _).
     { intros H; inv H. rewrite lock_mem_as_locked_mem. apply Inv_locked_mem; auto. }
     destruct (negb (forallb _ _)); [intros H; inv H; auto|].
     intros H; inv H. apply N.eqb_eq in EP; subst p.
-    unfold Inv, watch, locked; simpl. split; [|split].
+    destruct (Inv_parts _ HI0) as [HC0 _].
+    unfold Inv, watch, locked; simpl. rewrite Hd0. split; [|split; [|split]].
     + constructor; simpl; auto; try congruence.
       intros _. exists pw, g. repeat split; auto.
       intros _. rewrite salt_after_nonempty; auto.
+    + rewrite <- Hd0. apply Coh_fold_apply. simpl. apply Coh_avmap; [reflexivity | exact HC0].
     + intros _; constructor.
     + discriminate.
   - (* already unlocked: hash comparison *)
     rewrite (J eq_refl). rewrite N.eqb_refl. simpl.
     destruct (pw =? p) eqn:EP.
     + apply N.eqb_eq in EP; subst p. intros H; inv H.
-      unfold Inv, watch, locked; simpl. split; [|split].
+      unfold Inv, watch, locked; simpl. split; [|split; [|split]].
       * constructor; simpl; auto; try congruence.
         intros _. exists pw, g. repeat split; auto.
         intros _. rewrite salt_after_nonempty; auto.
+      * exact HC.
       * exact HQ.
-      * rewrite EL; discriminate.
+      * intros HL'. congruence.
     + intros H; inv H.
       change (lock_mem F (mem_keys (sm s) (with_salt (mk (sm s)) (salt_after (k_salt (mk (sm s))) p))))
         with (locked_mem F (sm s) (salt_after (k_salt (mk (sm s))) p)).
@@ -713,15 +949,15 @@ Proof.
   destruct (k_watch (mk (sm s))) eqn:EW; [intros H; inv H; auto|].
   destruct (new =? empty_pass) eqn:EN; [intros H; inv H; auto|].
   apply N.eqb_neq in EN.
-  destruct HI as (HK & HQ & HWp). destruct HK as [K1 K2 K3 K4].
+  pose proof HI as (HK & HC & HQ & HWp). destruct HK as [K1 K2 K3 K4].
   destruct (K4 EW) as (pw & g & A & B & C & D & E & G & I & J).
-  assert (HI : Inv s) by (split; [constructor; auto | split; auto]).
   rewrite A. destruct (pw =? old); simpl; [|intros H; inv H; auto].
   rewrite C, E, N.eqb_refl. simpl.
-  intros H; inv H. unfold Inv, watch, locked; simpl. split; [|split].
+  intros H; inv H. unfold Inv, watch, locked; simpl. split; [|split; [|split]].
   - constructor; simpl; auto; try congruence.
     intros _. exists new, (next_gen s). repeat split; auto.
     intros HL. rewrite HL. rewrite salt_after_nonempty; auto.
+  - exact HC.
   - intros _. apply HQ. exact EW.
   - intros HL. specialize (HWp HL). destruct HWp as (W1 & W2 & W3 & W4 & W5 & W6 & W7).
     unfold Wiped; simpl. rewrite HL. simpl. repeat split; auto.
@@ -731,8 +967,8 @@ Lemma Inv_change_pub old new s s' r : Inv s -> do_change_pub old new s = (s', r)
 Proof.
   intros HI. unfold do_change_pub. destruct (k_pub (mk (sm s))) as [pw g0].
   destruct (pw =? old); simpl; [|intros H; inv H; auto].
-  intros H; inv H. destruct HI as (HK & HQ & HWp). destruct HK as [K1 K2 K3 K4].
-  unfold Inv, watch, locked; simpl. split; [|split]; auto.
+  intros H; inv H. destruct HI as (HK & HC & HQ & HWp). destruct HK as [K1 K2 K3 K4].
+  unfold Inv, watch, locked; simpl. split; [|split; [|split]]; auto.
   constructor; simpl; auto.
 Qed.
 
@@ -741,13 +977,14 @@ Proof.
   intros HI. unfold do_open. destruct (d_pub (dk (sd s))) as [pw g0] eqn:EP.
   destruct (pw =? p); simpl; [|intros H; inv H; auto].
   destruct (d_cpub (dk (sd s)) =? g0) eqn:EC; simpl; [|intros H; inv H; auto].
-  intros H; inv H. destruct HI as (HK & HQ & HWp). destruct HK as [K1 K2 K3 K4].
-  unfold Inv, watch, locked; simpl. split; [|split].
+  intros H; inv H. destruct HI as (HK & HC & HQ & HWp). destruct HK as [K1 K2 K3 K4].
+  unfold Inv, watch, locked; simpl. split; [|split; [|split]].
   - constructor; simpl; auto.
     + destruct K3 as [_ K3]; split; congruence.
     + intros HW. rewrite HW. rewrite <- K1 in HW.
       destruct (K4 HW) as (pw' & g & A & B & C & D & E & G & I & J).
       exists pw', g. repeat split; auto. discriminate.
+  - intros k ai H; discriminate.
   - intros _; constructor.
   - intros _. unfold Wiped; simpl. repeat split; constructor.
 Qed.
@@ -757,6 +994,14 @@ Proof. intros H; exact H. Qed.
 Lemma addr_clean_convert o : addr_clean o -> addr_clean (convert_aobj o).
 Proof. destruct o; intros H; exact H. Qed.
 
+Lemma Coh_convert d a : Coh d a -> Coh (avmap convert_drow d) (avmap convert_ainfo a).
+Proof.
+  intros HC k ai H. rewrite alookup_avmap in H.
+  destruct (alookup pair_eqb k a) as [ai0|] eqn:E; [|discriminate]. simpl in H. inv H.
+  destruct (HC _ _ E) as (row & A & _). exists (convert_drow row). split; [|reflexivity].
+  rewrite alookup_avmap, A. reflexivity.
+Qed.
+
 Lemma Inv_convert F s s' r : facts_ok F -> Inv s -> do_convert F s = (s', r) -> Inv s'.
 Proof.
   intros (_ & H2 & H3 & H4 & _) HI. unfold do_convert.
@@ -765,12 +1010,16 @@ Proof.
   assert (HL0 : k_locked (mk m0) = true).
   { subst m0. destruct (locked s) eqn:EL; [exact EL | reflexivity]. }
   assert (HW0 : Wiped m0).
-  { subst m0. destruct (locked s) eqn:EL; [destruct HI as (_ & _ & HW); auto | apply Wiped_lock_mem; auto]. }
+  { subst m0. destruct (locked s) eqn:EL; [destruct HI as (_ & _ & _ & HW); auto | apply Wiped_lock_mem; auto]. }
   assert (HP0 : k_pub (mk m0) = k_pub (mk (sm s))).
   { subst m0. destruct (locked s); reflexivity. }
-  intros H; inv H. destruct HI as (HK & HQ & HWp). destruct HK as [K1 K2 K3 K4].
-  unfold Inv, watch, locked; simpl. split; [|split].
+  assert (HC0 : Coh (d_accts (sd s)) (m_accts m0)).
+  { destruct (Inv_parts _ HI) as [HC _]. subst m0. destruct (locked s); [exact HC|].
+    simpl. apply Coh_avmap; [reflexivity | exact HC]. }
+  intros H; inv H. destruct HI as (HK & HC & HQ & HWp). destruct HK as [K1 K2 K3 K4].
+  unfold Inv, watch, locked; simpl. split; [|split; [|split]].
   - constructor; simpl; auto; [rewrite HP0; exact K3 | discriminate].
+  - apply Coh_convert; exact HC0.
   - discriminate.
   - intros _. destruct HW0 as (W1 & W2 & W3 & W4 & W5 & W6 & W7). unfold Wiped; simpl. repeat split; auto.
     + eapply Forall_snd_avmap; [|exact W5]. apply acct_clean_convert.
@@ -781,7 +1030,7 @@ Qed.
 
 Theorem Inv_step F s o s' r : facts_ok F -> Inv s -> step F s o = (s', r) -> Inv s'.
 Proof.
-  intros HF HI. pose proof HF as (F1 & F2 & F3 & F4 & F5 & F6 & F7).
+  intros HF HI. pose proof HF as (F1 & F2 & F3 & F4 & F5 & F6 & F7 & F8 & F9).
   destruct o; simpl; intros H.
   - eapply Inv_open; eauto.
   - eapply Inv_unlock; eauto.
@@ -802,6 +1051,11 @@ Proof.
   - eapply Inv_crypt; eauto.
   - eapply Inv_crypt; eauto.
   - eapply Inv_convert; eauto.
+  - eapply Inv_mark_used; eauto.
+  - eapply Inv_foreach; eauto.
+  - eapply Inv_invalidate; eauto.
+  - unfold do_held_priv_key in H. inv H. exact HI.
+  - unfold do_held_script in H. inv H. exact HI.
 Qed.
 
 Lemma exec_cons F s o ops : exec F s (o :: ops) = exec F (fst (step F s o)) ops.
@@ -835,25 +1089,52 @@ Qed.
 
 Definition lockerr (r : rc) : Prop := r = RLocked \/ r = RWatchOnly.
 
+(* the accessor cores: whatever the object holds *)
+Lemma key_access_locked F k enc ct :
+  f_privkey_checks_first F = true -> k_locked k = true \/ k_watch k = true ->
+  lockerr (key_access F k enc ct).
+Proof.
+  intros HF HL. unfold key_access. rewrite HF.
+  destruct (k_watch k); [right; reflexivity|].
+  destruct HL as [HL|HL]; [|discriminate]. rewrite HL. left; reflexivity.
+Qed.
+
+Lemma script_access_locked k kd sec :
+  k_locked k = true \/ k_watch k = true -> kd = KP2SH \/ sec = true ->
+  lockerr (script_access k kd sec).
+Proof.
+  intros HL HS. unfold script_access.
+  assert (HG : match kd with KP2SH => true | _ => sec end = true).
+  { destruct HS as [-> | ->]; [reflexivity | destruct kd; reflexivity]. }
+  rewrite HG. simpl.
+  destruct (k_watch k); [right; reflexivity|].
+  destruct HL as [HL|HL]; [|discriminate]. rewrite HL. left; reflexivity.
+Qed.
+
+Lemma lockerr_not_ok r : lockerr r -> r <> ROk.
+Proof. intros [-> | ->]; discriminate. Qed.
+
 Lemma ac_priv_key F sc a s s1 imp enc ct :
+  f_privkey_checks_first F = true ->
   locked s = true \/ watch s = true ->
   load_addr F sc a s = Some (s1, OKey imp enc ct) ->
   lockerr (snd (do_priv_key F sc a s)) /\ fst (do_priv_key F sc a s) = s1.
 Proof.
-  intros HL E. unfold do_priv_key. rewrite E.
+  intros HF HL E. unfold do_priv_key. rewrite E.
   destruct (load_addr_spec _ _ _ _ _ _ E) as (_ & _ & Hk & _).
-  destruct (locked_of_mk _ _ Hk) as [Hl Hw]. rewrite Hl, Hw.
-  destruct (watch s); [split; [right|]; reflexivity|].
-  destruct HL as [HL|HL]; [|discriminate]. rewrite HL. split; [left|]; reflexivity.
+  assert (HL1 : k_locked (mk (sm s1)) = true \/ k_watch (mk (sm s1)) = true) by (rewrite Hk; exact HL).
+  pose proof (key_access_locked F _ enc ct HF HL1) as HE.
+  destruct HE as [-> | ->]; simpl; split; auto; [left | right]; reflexivity.
 Qed.
 
 Lemma ac_priv_key_no_material F sc a s :
+  f_privkey_checks_first F = true ->
   locked s = true \/ watch s = true -> snd (do_priv_key F sc a s) <> ROk.
 Proof.
-  intros HL. unfold do_priv_key. destruct (load_addr F sc a s) as [[s1 [imp enc ct|k sec ct]]|] eqn:E; simpl; try discriminate.
-  destruct (load_addr_spec _ _ _ _ _ _ E) as (_ & _ & Hk & _).
-  destruct (locked_of_mk _ _ Hk) as [Hl Hw]. rewrite Hl, Hw.
-  destruct (watch s); [discriminate|]. destruct HL as [HL|HL]; [|discriminate]. rewrite HL. discriminate.
+  intros HF HL. destruct (load_addr F sc a s) as [[s1 [imp enc ct|k sec ct]]|] eqn:E.
+  - destruct (ac_priv_key F sc a s s1 imp enc ct HF HL E) as [H _]. apply lockerr_not_ok; exact H.
+  - unfold do_priv_key. rewrite E. discriminate.
+  - unfold do_priv_key. rewrite E. discriminate.
 Qed.
 
 Lemma ac_script F sc a s s1 k sec ct :
@@ -864,25 +1145,21 @@ Lemma ac_script F sc a s s1 k sec ct :
 Proof.
   intros HL E HS. unfold do_script. rewrite E.
   destruct (load_addr_spec _ _ _ _ _ _ E) as (_ & _ & Hk & _).
-  destruct (locked_of_mk _ _ Hk) as [Hl Hw]. rewrite Hl, Hw.
-  assert (HG : match k with KP2SH => true | _ => sec end = true).
-  { destruct HS as [-> | ->]; [reflexivity | destruct k; reflexivity]. }
-  rewrite HG. simpl.
-  destruct (watch s); [split; [right|]; reflexivity|].
-  destruct HL as [HL|HL]; [|discriminate]. rewrite HL. split; [left|]; reflexivity.
+  assert (HL1 : k_locked (mk (sm s1)) = true \/ k_watch (mk (sm s1)) = true) by (rewrite Hk; exact HL).
+  pose proof (script_access_locked _ k sec HL1 HS) as HE.
+  destruct HE as [-> | ->]; simpl; split; auto; [left | right]; reflexivity.
 Qed.
 
 Lemma ac_derive F sc acct br idx s :
+  f_privkey_checks_first F = true ->
   locked s = true \/ watch s = true ->
   (load_acct F sc acct s <> None -> lockerr (snd (do_derive F sc acct br idx s))) /\
   snd (do_derive F sc acct br idx s) <> ROk.
 Proof.
-  intros HL. unfold do_derive. destruct (load_acct F sc acct s) as [[s1 ai]|] eqn:E.
-  - destruct (load_acct_spec _ _ _ _ _ _ E) as (_ & _ & Hk & _). rewrite Hk.
-    fold (watch s) (locked s).
-    destruct (watch s); [split; [intros _; right; reflexivity | discriminate]|].
-    destruct HL as [HL|HL]; [|discriminate]. rewrite HL.
-    split; [intros _; left; reflexivity | discriminate].
+  intros HF HL. unfold do_derive. destruct (load_acct F sc acct s) as [[s1 ai]|] eqn:E.
+  - destruct (load_acct_spec _ _ _ _ _ _ E) as (_ & _ & Hk & _).
+    assert (HL1 : k_locked (mk (sm s1)) = true \/ k_watch (mk (sm s1)) = true) by (rewrite Hk; exact HL).
+    simpl. split; [intros _|apply lockerr_not_ok]; apply key_access_locked; auto.
   - split; [intros H; contradiction | discriminate].
 Qed.
 
@@ -940,6 +1217,17 @@ Proof.
   destruct HL as [HL|HL]; [discriminate|]. rewrite HL. split; [right|]; reflexivity.
 Qed.
 
+(* accessors of an address object the caller kept, whatever it holds *)
+Lemma ac_held_priv_key F enc ct s :
+  f_privkey_checks_first F = true -> locked s = true \/ watch s = true ->
+  lockerr (snd (do_held_priv_key F enc ct s)) /\ fst (do_held_priv_key F enc ct s) = s.
+Proof. intros HF HL. split; [apply key_access_locked; auto | reflexivity]. Qed.
+
+Lemma ac_held_script k sec ct s :
+  locked s = true \/ watch s = true -> k = KP2SH \/ sec = true ->
+  lockerr (snd (do_held_script k sec ct s)) /\ fst (do_held_script k sec ct s) = s.
+Proof. intros HL HS. split; [apply script_access_locked; auto | reflexivity]. Qed.
+
 (* ------------------------------------------------------------------ (iii) Lock clears every buffer *)
 
 Lemma lock_clears F s s' :
@@ -968,10 +1256,14 @@ Proof.
   exists pw. unfold cur_pass. rewrite B. auto.
 Qed.
 
-Lemma qok_derivable accts q : qok accts q -> qent_derivable (avmap unlock_ainfo accts) q = true.
+Lemma derivable_of_cached d accts q :
+  Coh d accts -> dqok d q ->
+  (forall k, qent_acct q = Some k -> exists ai, alookup pair_eqb k accts = Some ai) ->
+  qent_derivable (avmap unlock_ainfo accts) q = true.
 Proof.
-  intros (k & Hk & ai & HL & HE). unfold qent_derivable. rewrite Hk.
-  rewrite alookup_avmap, HL. simpl. exact HE.
+  intros HC (k & row & Hk & HL & HP) Hc. destruct (Hc k Hk) as (ai & Ha).
+  unfold qent_derivable. rewrite Hk. rewrite alookup_avmap, Ha. simpl.
+  destruct (HC _ _ Ha) as (row' & A & B). congruence.
 Qed.
 
 Lemma unlock_current F s :
@@ -979,14 +1271,23 @@ Lemma unlock_current F s :
   exists pw s', cur_pass s = Some pw /\ step F s (OpUnlock pw) = (s', ROk) /\
                 locked s' = false /\ watch s' = false /\ sd s' = sd s.
 Proof.
-  intros (_ & _ & _ & _ & F5 & _) HI HW. pose proof HI as (HK & HQ & _). destruct HK as [_ _ _ K4].
+  intros (_ & _ & _ & _ & F5 & F6 & _ & _ & F9) HI HW. pose proof HI as (HK & HC & HQ & _). destruct HK as [_ _ _ K4].
   destruct (K4 HW) as (pw & g & A & B & C & D & E & G & I & J).
   exists pw. simpl. unfold do_unlock. unfold watch in HW. rewrite HW.
   destruct (k_locked (mk (sm s))) eqn:EL; simpl.
-  - rewrite A, N.eqb_refl. simpl. rewrite C, N.eqb_refl. simpl. rewrite F5. simpl.
-    assert (HD : forallb (qent_derivable (avmap unlock_ainfo (m_accts (sm s)))) (m_queue (sm s)) = true).
-    { apply forallb_forall. intros q Hq. apply qok_derivable.
-      specialize (HQ HW). rewrite Forall_forall in HQ. auto. }
+  - rewrite A, N.eqb_refl. simpl. rewrite C, N.eqb_refl. simpl. rewrite F9.
+    destruct (preload_succeeds F (m_queue (sm s)) s EL (HQ HW)) as (s0 & EP). rewrite EP.
+    destruct (preload_spec _ _ _ _ F6 HI EP) as (HI0 & Hd0 & _ & Hk0 & _ & (q' & Hq' & Hq'c) & Hall).
+    rewrite F5. simpl.
+    assert (HD : forallb (qent_derivable (avmap unlock_ainfo (m_accts (sm s0)))) (m_queue (sm s0)) = true).
+    { destruct (Inv_parts _ HI0) as [HC0 HQ0].
+      assert (HW0 : watch s0 = false) by (unfold watch; rewrite Hk0; exact HW).
+      specialize (HQ0 HW0). rewrite Forall_forall in HQ0.
+      apply forallb_forall. intros q Hq. apply (derivable_of_cached (d_accts (sd s0))); auto.
+      rewrite Hq' in Hq. apply in_app_or in Hq as [Hq|Hq].
+      - rewrite Forall_forall in Hall. exact (Hall q Hq).
+      - rewrite Forall_forall in Hq'c. destruct (Hq'c q Hq) as (k & ai & Hk & Ha).
+        intros k' Hk'. exists ai. congruence. }
     rewrite HD. simpl. eexists; split; [unfold cur_pass; rewrite B; reflexivity|].
     split; [reflexivity|]. unfold locked, watch; simpl. auto.
   - rewrite (J eq_refl), !N.eqb_refl. simpl.
@@ -999,7 +1300,7 @@ Lemma unlock_other F s p :
   exists s', step F s (OpUnlock p) = (s', RWrongPass) /\
              locked s' = true /\ wiped (sm s') = true /\ sd s' = sd s.
 Proof.
-  intros (_ & F2 & F3 & F4 & _) HI HW HP. pose proof HI as (HK & HQ & _). destruct HK as [_ _ _ K4].
+  intros (_ & F2 & F3 & F4 & _) HI HW HP. pose proof HI as (HK & _). destruct HK as [_ _ _ K4].
   destruct (K4 HW) as (pw & g & A & B & C & D & E & G & I & J).
   assert (HNE : (pw =? p) = false).
   { apply N.eqb_neq. intros ->. apply HP. unfold cur_pass. rewrite B. reflexivity. }
@@ -1022,13 +1323,40 @@ Ltac dmatch :=
          | |- context [if ?x then _ else _] => destruct x eqn:?
          end.
 
+Lemma preload_sd F qs : forall s s0, preload F qs s = Some s0 -> sd s0 = sd s.
+Proof.
+  induction qs as [|q qs IH]; intros s s0 H; simpl in H; [inv H; reflexivity|].
+  destruct (qent_acct q) as [[sc acct]|]; [|eauto].
+  destruct (load_acct F sc acct s) as [[s1 ai]|] eqn:E; [|discriminate].
+  destruct (load_acct_spec _ _ _ _ _ _ E) as (Hd & _). rewrite <- Hd. eauto.
+Qed.
+
+Lemma unlock_sd F p s s' r : do_unlock F p s = (s', r) -> sd s' = sd s.
+Proof.
+  unfold do_unlock.
+  destruct (k_watch (mk (sm s))); [intros H; inv H; auto|].
+  destruct (negb (k_locked (mk (sm s)))).
+  { destruct (k_hashed (mk (sm s))) as [[hs hp]|]; [destruct ((hs =? k_salt (mk (sm s))) && (hp =? p))|];
+      intros H; inv H; reflexivity. }
+  destruct (k_priv (mk (sm s))) as [[pw g]|]; [|intros H; inv H; auto].
+  destruct (negb (pw =? p)); [intros H; inv H; auto|].
+  destruct (k_cpriv_enc (mk (sm s))) as [g'|]; [|intros H; inv H; auto].
+  destruct (negb (g' =? g)); [intros H; inv H; auto|].
+  destruct (if f_unlock_preloads F then preload F (m_queue (sm s)) s else Some s) as [s0|] eqn:EP;
+    [|intros H; inv H; auto].
+  assert (Hd : sd s0 = sd s).
+  { destruct (f_unlock_preloads F); [eapply preload_sd; eauto | inv EP; reflexivity]. }
+  destruct (negb (f_unlock_skips_keyless F) && existsb _ _); [intros H; inv H; auto|].
+  destruct (negb (forallb _ _)); intros H; inv H; auto.
+Qed.
+
 Lemma step_keeps_priv F s o s' r :
   keeps_priv o = true -> step F s o = (s', r) ->
   d_priv (dk (sd s')) = d_priv (dk (sd s)) /\ d_watch (dk (sd s')) = d_watch (dk (sd s)).
 Proof.
   intros HKp. destruct o; try discriminate; simpl.
   - unfold do_open. dmatch; intros H; inv H; auto.
-  - unfold do_unlock. dmatch; intros H; inv H; auto.
+  - intros H. rewrite (unlock_sd _ _ _ _ _ H). auto.
   - unfold do_lock. dmatch; intros H; inv H; auto.
   - unfold do_change_pub. dmatch; intros H; inv H; auto.
   - unfold do_new_account. dmatch; intros H; inv H; auto.
@@ -1054,6 +1382,14 @@ Proof.
   - unfold do_derive_cache. dmatch; intros H; inv H; auto.
   - unfold do_crypt. dmatch; intros H; inv H; auto.
   - unfold do_crypt. dmatch; intros H; inv H; auto.
+  - unfold do_mark_used. dmatch; intros H; inv H; auto.
+  - unfold do_foreach. destruct (filter _ _); [intros H; inv H; auto|].
+    destruct (load_acct F sc acct s) as [[s1 ai]|] eqn:E; [|intros H; inv H; auto].
+    destruct (load_acct_spec _ _ _ _ _ _ E) as (Hd & _).
+    intros H; inv H; simpl; rewrite ?Hd; auto.
+  - unfold do_invalidate. intros H; inv H; auto.
+  - unfold do_held_priv_key. intros H; inv H; auto.
+  - unfold do_held_script. intros H; inv H; auto.
 Qed.
 
 Lemma exec_keeps_priv F ops : forall s,
@@ -1142,18 +1478,26 @@ Definition access_control_statement (F : facts) : Prop :=
         mk (sm s') = mk (sm s) /\ m_accts (sm s') = m_accts (sm s) /\ m_cache (sm s') = m_cache (sm s))) /\
   (* secret script import *)
   (forall sc n k secret, k = KP2SH \/ secret = true ->
-     lockerr (snd (step F s (OpImportScript sc n k secret))) /\ fst (step F s (OpImportScript sc n k secret)) = s).
+     lockerr (snd (step F s (OpImportScript sc n k secret))) /\ fst (step F s (OpImportScript sc n k secret)) = s) /\
+  (* ANY address object ever handed out and kept by the caller - the result of
+     Next*Addresses, DeriveFromKeyPath, Address, ForEachAccountAddress, an
+     import; tracked by the manager or not; whatever it holds ([enc], [ct]
+     arbitrary) *)
+  (forall enc ct, lockerr (snd (step F s (OpHeldPrivKey enc ct))) /\ fst (step F s (OpHeldPrivKey enc ct)) = s) /\
+  (forall k sec ct, k = KP2SH \/ sec = true ->
+     lockerr (snd (step F s (OpHeldScript k sec ct))) /\ fst (step F s (OpHeldScript k sec ct)) = s).
 
-Theorem access_control F : f_cache_checked F = true -> access_control_statement F.
+Theorem access_control F :
+  f_cache_checked F = true -> f_privkey_checks_first F = true -> access_control_statement F.
 Proof.
-  intros HF s HL. repeat split.
-  - apply ac_priv_key_no_material; exact HL.
+  intros HF HF8 s HL. repeat split.
+  - apply ac_priv_key_no_material; assumption.
   - eapply ac_priv_key; eauto.
   - eapply ac_priv_key; eauto.
   - eapply ac_script; eauto.
   - eapply ac_script; eauto.
-  - apply ac_derive; exact HL.
-  - apply ac_derive; exact HL.
+  - apply ac_derive; assumption.
+  - apply ac_derive; assumption.
   - apply ac_derive_cache; assumption.
   - apply ac_derive_cache; assumption.
   - apply ac_crypt; assumption.
@@ -1168,6 +1512,8 @@ Proof.
   - eapply ac_import_priv_watch; eauto.
   - apply ac_import_script; assumption.
   - apply ac_import_script; assumption.
+  - apply ac_held_priv_key; assumption.
+  - apply ac_held_script; assumption.
 Qed.
 
 (* (ii) in every reachable state of a manager that is not watching-only *)
